@@ -410,7 +410,9 @@ def part_tar(ctx, info, drv, tools, stats):
             corpus.append(("corpus:" + f, open(os.path.join(cdir, f), "rb").read()))
     cases = corpus + cases
     lines = [(d.hex() or "-") for _, d in cases]
-    outs_m, inc_m = run_parallel([drv, "tar"], lines, chunks=12)
+    # the extracted list functions are not tail recursive: a 600 kB archive needs more than the default stack
+    drv_cmd = ["sh", "-c", 'ulimit -s unlimited 2>/dev/null || ulimit -s 4000000 2>/dev/null; exec "$0" "$@"', drv, "tar"]
+    outs_m, inc_m = run_parallel(drv_cmd, lines, chunks=12, timeout=1800)
     outs_c, inc_c = run_parallel([h, "tar"], lines, env=ASAN_ENV, chunks=8, timeout=900)
 
     def replay_of(i):
@@ -658,7 +660,7 @@ def do_replay(ctx, info, drv, tools):
         h = B.compile_harness(info, [os.path.join(HERE, "h_tar.c")], "c07_h_tar")
         line = data.hex() or "-"
         oc, ic = run_batch([h, "tar"], [line], env=ASAN_ENV, timeout=60)
-        om, _ = run_batch([drv, "tar"], [line])
+        om, _ = run_batch(["sh", "-c", 'ulimit -s unlimited 2>/dev/null || ulimit -s 4000000 2>/dev/null; exec "$0" "$@"', drv, "tar"], [line])
         for i, kind, err in ic:
             report_incident(ctx, "tar", line, kind, err, r)
         if not ic and oc != om and part == "tar":
